@@ -42,7 +42,12 @@ func VerifRun_C04g() {
 	types := "---@alias " + cu + " number\n\n---@class " + ac + desc + "\n---@field bal " + cu + desc + "\nlocal " + ac + " = {}\nreturn " + ac + "\n"
 	use := "-- header\n-- header\n-- header\n-- header\n-- header\n-- header\n-- header\n---@alias " + lo + " string\n\n---@class Sv" + n2 + " : " + ac + "\n---@field cur " + lo + "\nlocal Sv = {}\n\n---@type " + cu + "\nlocal v = 1\n---@param p " + ac + "\n---@return " + lo + "\nfunction f(p) return v end\n"
 	fa, fb := root+"/types.lua", root+"/use.lua"
-	verifVFSPut(fa, []byte(types))
+	// the file on disk may start with a UTF-8 byte order mark, which is not part of the document's text
+	if verifBool("byteOrderMark") {
+		verifVFSPut(fa, []byte("\xef\xbb\xbf"+types))
+	} else {
+		verifVFSPut(fa, []byte(types))
+	}
 	verifVFSPut(fb, []byte(use))
 	c08view = map[string]string{}
 	l := c08eServer(root, []string{fa, fb})
